@@ -201,6 +201,15 @@ M = [
      "            log_bins = self._log_min * np.arange(self._bin_count + 1) + self._log_width\n", ["C07"]),
     ("c07b_numpy_binning_ignores_range_start", "binnings.py",
      "        edges = np.linspace(range[0], range[1], bin_count + 1)\n", "        edges = np.linspace(0, range[1], bin_count + 1)\n", ["C07"]),
+    ("c20b_map_colours_from_frequencies", "plotting/matplotlib.py",
+     "    norm, cmap_data = _get_cmap_data(data, kwargs)\n    colors = cmap(cmap_data)\n\n    xpos, ypos = (arr.flatten() for arr in h2.get_bin_left_edges())\n",
+     "    norm, cmap_data = _get_cmap_data(h2.frequencies.flatten(), kwargs)\n    colors = cmap(cmap_data)\n\n    xpos, ypos = (arr.flatten() for arr in h2.get_bin_left_edges())\n", ["C20"]),
+    ("c20b_cmap_data_not_normalised_data", "plotting/matplotlib.py",
+     "    return norm, norm(data)\n", "    return norm, norm(np.sort(data))\n", ["C20"]),
+    ("c20e_labels_skip_zero_tick", "plotting/common.py",
+     "                for neg, h, m, s in hms\n            ]\n", "                for neg, h, m, s in hms\n                if h or m or s\n            ]\n", ["C20"]),
+    ("c20e_call_swaps_range", "plotting/common.py",
+     "        ticks = self.get_time_ticks(h1, level, min_, max_)\n", "        ticks = self.get_time_ticks(h1, level, max_, min_)\n", ["C20"]),
 ]
 
 
